@@ -202,6 +202,7 @@ class Run:
         for h in hs:
             o = Obligation(h["ob"], "kani", h.get("kind", "complete"), h.get("bound"), h.get("functions", []), h.get("desc", ""))
             o.harness = u["modpath"] + "::" + h["name"] if "::" not in h["name"] else h["name"]
+            o.hfile = h.get("file")
             o.known = h.get("known")
             obs[o.harness] = o
             self.obs.append(o)
@@ -261,14 +262,15 @@ class Run:
         from concurrent.futures import ThreadPoolExecutor
         for o in failed:
             self.say("  obligation %s FAILED in kani: %s" % (o.name, o.detail[:200]))
-        hfile = u.get("playback_file") or u["injections"][-1]["file"]
+        dfile = u.get("playback_file") or u["injections"][-1]["file"]
 
         def get(o):
             return o, kani_playback_source(self.prop, sc.ws, u["crate"], o.harness, timeout=u.get("playback_timeout", 1500))
         with ThreadPoolExecutor(max_workers=min(8, len(failed))) as ex:
             got = list(ex.map(get, failed))
-        tests = []
+        by_file = {}
         for o, (srcs, pout) in got:
+            hfile = getattr(o, "hfile", None) or dfile
             o.replay_payload = {"engine": "kani", "harness": o.harness, "crate": u["crate"], "unit": u["name"],
                                 "failed_checks": o.detail, "verifier_output": getattr(o, "kani_raw", "")[-4000:],
                                 "harness_file": hfile}
@@ -277,9 +279,10 @@ class Run:
             if srcs:
                 o.replay_payload["playback_tests"] = srcs
                 o.replay_payload["inputs"] = [decode_playback(t) for t in srcs]
-                tests += srcs
-        if tests:
+                by_file.setdefault(hfile, []).extend(srcs)
+        for hfile, tests in by_file.items():
             add_playback_tests(sc.ws, hfile, tests)
+        if by_file:
             for o, (srcs, pout) in got:
                 outs = []
                 for t in srcs or []:
